@@ -25,17 +25,129 @@ import (
 type Case struct {
 	Project jgen.Project `json:"project"`
 	CLI     bool         `json:"cli"`
+	// the zero values of the following fields are the plain variant
+	Root     string        `json:"root,omitempty"`     // name of the analysed directory below the scratch directory ("" = proj)
+	Slash    bool          `json:"slash,omitempty"`    // the directory is handed to AnalysisPath with a trailing separator
+	CLIForm  int           `json:"cliForm,omitempty"`  // spelling of the command line (cliForms)
+	CLIAgain bool          `json:"cliAgain,omitempty"` // `coca analysis` is run a second time with --identify=false (the identifier list of the first run)
+	Twice    bool          `json:"twice,omitempty"`    // both passes are run twice in the process; the second result is judged as well
+	Before   *jgen.Project `json:"before,omitempty"`   // another tree that is analysed first, in the same process and at the same path
+	Shapes   []string      `json:"shapes,omitempty"`   // what the layout / tree variants of c01_shapes_test.go did (class labels)
+}
+
+// longFeature: the unit has one of the long-line shapes, whose physical lines stay as they are.
+func longFeature(u jgen.UnitTruth) bool {
+	for _, ft := range u.Features {
+		switch ft {
+		case "flat_unit", "flat_member", "wide_parameter_list", "long_comment", "long_literal":
+			return true
+		}
+	}
+	return false
 }
 
 func gen(t *rapid.T) Case {
-	p := jgen.GenProject(t, jgen.Opts{Layout: true, Interfaces: true, RichDecl: true, MaxUnits: 8, MultiByte: true, WordNames: true, WordDirs: true, ModuleLayout: true, LongLines: true, Bodies: rapid.IntRange(0, 3).Draw(t, "bodies") == 0})
+	o := jgen.Opts{Layout: true, Interfaces: true, RichDecl: true, MaxUnits: 8, MultiByte: true, WordNames: true, WordDirs: true, ModuleLayout: true, LongLines: true, ManyMembers: true,
+		Bodies: rapid.IntRange(0, 3).Draw(t, "bodies") == 0}
+	// further dimensions, each behind its own draw (0 = as before)
+	o.ExoticNames = rapid.IntRange(0, 2).Draw(t, "exoticNames") == 2
+	o.KeywordNames = rapid.IntRange(0, 2).Draw(t, "keywordNames") == 2
+	o.DeclForms = rapid.IntRange(0, 1).Draw(t, "declForms") == 1
+	switch rapid.IntRange(0, 5).Draw(t, "nameSharing") {
+	case 4, 3, 2:
+		o.TwinNames = true
+	case 5:
+		o.WildcardProjectImports = true // never together with TwinNames: a name reached through a wildcard import has to be unique
+	}
+	o.ExtraImps = rapid.IntRange(0, 3).Draw(t, "extraImports") == 3
+	o.SharedMethodNames = rapid.IntRange(0, 3).Draw(t, "sharedMethodNames") == 3
+	if o.Bodies {
+		o.Wide = rapid.Bool().Draw(t, "wideBodies")
+		o.Loops = rapid.Bool().Draw(t, "loopBodies")
+		o.ScopedReuse = rapid.Bool().Draw(t, "scopedReuse")
+	}
+	if rapid.IntRange(0, 14).Draw(t, "manyUnits") == 14 {
+		o.MaxUnits = 36
+	}
+	p := jgen.GenProject(t, o)
+	var shapes []string
+	// the same tokens in another layout
+	for i, u := range p.Units {
+		if longFeature(u) || rapid.IntRange(0, 3).Draw(t, "relayout") != 3 {
+			continue
+		}
+		st := drawLayoutStyle(t)
+		if text := relayout(p.Files[i].Text, st); text != "" && len(jgen.SyntaxErrors(text)) == 0 {
+			p.Files[i].Text = text
+			shapes = append(shapes, layoutLabels(st)...)
+		} else {
+			shapes = append(shapes, "relayout_rejected")
+		}
+	}
+	shapes = append(shapes, tweakTree(t, &p)...)
 	// some files end their lines with CR LF
 	for i := range p.Files {
 		if strings.HasSuffix(p.Files[i].Path, ".java") && rapid.IntRange(0, 7).Draw(t, "crlf") == 0 {
 			p.Files[i].Text = strings.ReplaceAll(p.Files[i].Text, "\n", "\r\n")
 		}
 	}
-	return Case{Project: p, CLI: rapid.IntRange(0, 11).Draw(t, "cli") == 0}
+	c := Case{Project: p, CLI: rapid.IntRange(0, 9).Draw(t, "cli") == 0}
+	if rapid.IntRange(0, 3).Draw(t, "rootName") == 3 {
+		name := rapid.SampledFrom(rootNames).Draw(t, "rootNameText")
+		ignoreDir, ignoreSuffix := "", ""
+		for _, f := range p.Files {
+			if f.Path == ".gitignore" {
+				for _, w := range []string{"gen_out", "skipme", "dist_tmp"} {
+					if strings.Contains(f.Text, w) {
+						ignoreDir = w
+					}
+				}
+				for _, w := range []string{"Gen", "Stub"} {
+					if strings.Contains(f.Text, w+".java") {
+						ignoreSuffix = w
+					}
+				}
+			}
+		}
+		if (!strings.Contains(name, "%d") || ignoreDir != "") && (!strings.Contains(name, "%s") || ignoreSuffix != "") {
+			c.Root = strings.ReplaceAll(strings.ReplaceAll(name, "%d", ignoreDir), "%s", ignoreSuffix)
+		}
+	}
+	c.Slash = rapid.IntRange(0, 5).Draw(t, "trailingSeparator") == 5
+	if c.CLI {
+		c.CLIForm = rapid.IntRange(0, len(cliForms)-1).Draw(t, "cliForm")
+		c.CLIAgain = rapid.IntRange(0, 2).Draw(t, "cliAgain") == 2
+	}
+	switch rapid.IntRange(0, 9).Draw(t, "history") {
+	case 8:
+		c.Twice = true
+	case 9:
+		before := jgen.GenProject(t, jgen.Opts{Layout: true, Interfaces: true, RichDecl: true, MaxUnits: 3, ModuleLayout: true})
+		c.Before = &before
+	}
+	seen := map[string]bool{}
+	for _, l := range shapes {
+		if !seen[l] {
+			seen[l] = true
+			c.Shapes = append(c.Shapes, l)
+		}
+	}
+	sort.Strings(c.Shapes)
+	return c
+}
+
+// cliForms are spellings of the command line. ABS is the absolute path of the analysed directory, REL its
+// path relative to the working directory; "cwd" = the command runs inside the analysed directory.
+var cliForms = [][]string{
+	{"analysis", "-p", "ABS"},
+	{"analysis", "--path", "ABS"},
+	{"analysis", "--path=ABS"},
+	{"analysis", "-p", "REL"},
+	{"analysis", "-p", "./REL/"},
+	{"cwd", "analysis"},
+	{"analysis", "-i", "-p", "ABS"},
+	{"analysis", "--identify=true", "--path", "ABS/"},
+	{"cwd", "analysis", "--path=."},
 }
 
 func reset() {
@@ -64,8 +176,11 @@ func funcKey(name, ret string, ctor bool, params []jgen.Param, withParams bool) 
 }
 
 // compare checks a model against the ground truth. pass is "identifier" or "full".
-func compare(model []core_domain.CodeDataStruct, p jgen.Project, dir string, pass string, qualified bool) string {
+// dir is the analysed directory as it was named to the tool (cleaned): the source paths start with it.
+// pass is "identifier" or "full"; note says which run it was (part of the messages only).
+func compare(model []core_domain.CodeDataStruct, p jgen.Project, dir string, pass string, note string, qualified bool) string {
 	full := pass != "identifier"
+	pass += note
 	byKey := map[string][]core_domain.CodeDataStruct{}
 	for _, ds := range model {
 		if ds.NodeName == "" {
@@ -154,54 +269,120 @@ func compare(model []core_domain.CodeDataStruct, p jgen.Project, dir string, pas
 	return ""
 }
 
+func writeProject(root string, p jgen.Project) {
+	files := map[string]string{}
+	for _, f := range p.Files {
+		files[f.Path] = f.Text
+	}
+	if err := os.MkdirAll(root, 0755); err != nil {
+		panic(err)
+	}
+	cli.WriteTree(root, files)
+}
+
 func check(c Case) pbt.Verdict {
 	dir := cli.Scratch("c01-")
 	defer os.RemoveAll(dir)
-	proj := filepath.Join(dir, "proj")
-	files := map[string]string{}
-	for _, f := range c.Project.Files {
-		files[f.Path] = f.Text
+	root := "proj"
+	if c.Root != "" {
+		root = c.Root
 	}
-	cli.WriteTree(proj, files)
+	proj := filepath.Join(dir, filepath.FromSlash(root))
+	arg := proj
+	if c.Slash {
+		arg += string(filepath.Separator)
+	}
 	reset()
-	var ident, full []core_domain.CodeDataStruct
-	if p := pbt.Call(func() {
-		app := javaapp.NewJavaIdentifierApp()
-		ident = app.AnalysisPath(proj)
-	}); p != "" {
-		return pbt.Fail("identifier pass panicked: %s", p)
-	}
-	if msg := compare(ident, c.Project, proj, "identifier", false); msg != "" {
-		return pbt.Fail("%s", msg)
-	}
-	if p := pbt.Call(func() {
-		app := javaapp.NewJavaFullApp()
-		full = app.AnalysisPath(proj, ident)
-	}); p != "" {
-		return pbt.Fail("full pass panicked: %s", p)
-	}
-	if msg := compare(full, c.Project, proj, "full", true); msg != "" {
-		return pbt.Fail("%s", msg)
-	}
-	if c.CLI {
-		res, err := cli.Run("coca", dir, nil, "analysis", "-p", proj)
-		if err != nil {
+	if c.Before != nil {
+		// an earlier analysis of another tree at the same path, in the same process
+		writeProject(proj, *c.Before)
+		if p := pbt.Call(func() {
+			ia, fa := javaapp.NewJavaIdentifierApp(), javaapp.NewJavaFullApp()
+			fa.AnalysisPath(arg, ia.AnalysisPath(arg))
+		}); p != "" {
+			return pbt.Fail("analysis of the earlier tree panicked: %s", p)
+		}
+		if err := os.RemoveAll(proj); err != nil {
 			panic(err)
 		}
-		if res.ExitCode != 0 || res.TimedOut {
-			return pbt.Fail("`coca analysis -p DIR` exited with %d (timeout=%v)\n%s", res.ExitCode, res.TimedOut, tail(res.Stdout+res.Stderr))
+	}
+	writeProject(proj, c.Project)
+	rounds := []string{""}
+	if c.Twice {
+		rounds = append(rounds, ", second analysis in the process")
+	}
+	for _, round := range rounds {
+		var ident, full []core_domain.CodeDataStruct
+		if p := pbt.Call(func() {
+			app := javaapp.NewJavaIdentifierApp()
+			ident = app.AnalysisPath(arg)
+		}); p != "" {
+			return pbt.Fail("identifier pass%s panicked: %s", round, p)
 		}
-		for _, out := range []struct{ file, pass string }{{"identify.json", "identifier"}, {"deps.json", "full (coca analysis)"}} {
-			data, err := os.ReadFile(filepath.Join(dir, "coca_reporter", out.file))
+		if msg := compare(ident, c.Project, proj, "identifier", round, false); msg != "" {
+			return pbt.Fail("%s", strings.ReplaceAll(msg, dir, "<scratch>"))
+		}
+		if p := pbt.Call(func() {
+			app := javaapp.NewJavaFullApp()
+			full = app.AnalysisPath(arg, ident)
+		}); p != "" {
+			return pbt.Fail("full pass%s panicked: %s", round, p)
+		}
+		if msg := compare(full, c.Project, proj, "full", round, true); msg != "" {
+			return pbt.Fail("%s", strings.ReplaceAll(msg, dir, "<scratch>"))
+		}
+	}
+	if c.CLI {
+		form := cliForms[0]
+		if c.CLIForm > 0 && c.CLIForm < len(cliForms) {
+			form = cliForms[c.CLIForm]
+		}
+		cwd, named := dir, proj
+		var args []string
+		for _, a := range form {
+			switch {
+			case a == "cwd":
+				cwd, named = proj, "."
+			case strings.Contains(a, "ABS"):
+				args = append(args, strings.ReplaceAll(a, "ABS", proj))
+			case strings.Contains(a, "REL"):
+				args = append(args, strings.ReplaceAll(a, "REL", filepath.FromSlash(root)))
+				named = filepath.FromSlash(root)
+			default:
+				args = append(args, a)
+			}
+		}
+		shown := strings.Join(form, " ")
+		runs := [][]string{args}
+		if c.CLIAgain {
+			runs = append(runs, append(append([]string(nil), args...), "--identify=false"))
+		}
+		for k, args := range runs {
+			if k > 0 {
+				shown += " --identify=false (second run)"
+				if err := os.Remove(filepath.Join(cwd, "coca_reporter", "deps.json")); err != nil {
+					panic(err)
+				}
+			}
+			res, err := cli.Run("coca", cwd, nil, args...)
 			if err != nil {
-				return pbt.Fail("`coca analysis` wrote no %s: %v", out.file, err)
+				panic(err)
 			}
-			var model []core_domain.CodeDataStruct
-			if err := json.Unmarshal(data, &model); err != nil {
-				return pbt.Fail("%s is not valid JSON: %v", out.file, err)
+			if res.ExitCode != 0 || res.TimedOut {
+				return pbt.Fail("`coca %s` exited with %d (timeout=%v)\n%s", shown, res.ExitCode, res.TimedOut, strings.ReplaceAll(tail(res.Stdout+res.Stderr), dir, "<scratch>"))
 			}
-			if msg := compare(model, c.Project, proj, out.pass, true); msg != "" {
-				return pbt.Fail("%s", msg)
+			for _, out := range []struct{ file, pass string }{{"identify.json", "identifier"}, {"deps.json", "full"}} {
+				data, err := os.ReadFile(filepath.Join(cwd, "coca_reporter", out.file))
+				if err != nil {
+					return pbt.Fail("`coca %s` wrote no %s: %v", shown, out.file, err)
+				}
+				var model []core_domain.CodeDataStruct
+				if err := json.Unmarshal(data, &model); err != nil {
+					return pbt.Fail("%s of `coca %s` is not valid JSON: %v", out.file, shown, err)
+				}
+				if msg := compare(model, c.Project, filepath.Clean(named), out.pass, " (coca "+shown+")", true); msg != "" {
+					return pbt.Fail("%s", strings.ReplaceAll(msg, dir, "<scratch>"))
+				}
 			}
 		}
 	}
@@ -344,21 +525,176 @@ func classify(c Case) pbt.Verdict {
 	}
 	if c.CLI {
 		v.Classes = append(v.Classes, "cli")
+		if c.CLIForm > 0 && c.CLIForm < len(cliForms) {
+			f := strings.Join(cliForms[c.CLIForm], " ")
+			switch {
+			case strings.Contains(f, "REL") || strings.Contains(f, "cwd"):
+				v.Classes = append(v.Classes, "cli_relative_path")
+			case strings.Contains(f, "--path"):
+				v.Classes = append(v.Classes, "cli_long_option")
+			}
+			if strings.Contains(f, "-i") {
+				v.Classes = append(v.Classes, "cli_identify_option")
+			}
+		}
+		if c.CLIAgain {
+			v.Classes = append(v.Classes, "cli_second_run_with_stored_identifiers")
+		}
 	}
+	v.Classes = append(v.Classes, auditLabels(c)...)
 	v.NonTrivial = len(c.Project.Units) >= 2 && nMain >= 1 && nOther >= 1 && multi
 	return v
+}
+
+var contextual = map[string]bool{}
+
+func init() {
+	for _, w := range strings.Fields("record open to with module uses provides exports requires opens transitive permits sealed yield var") {
+		contextual[w] = true
+	}
+}
+
+// auditLabels names the shapes of the checklist audit that a case contains (each label once per case).
+func auditLabels(c Case) []string {
+	set := map[string]bool{}
+	for _, l := range c.Shapes {
+		set[l] = true
+	}
+	if c.Root != "" {
+		set["root_directory_with_unusual_name"] = true
+		for _, f := range c.Project.Files {
+			if f.Path == ".gitignore" && (strings.Contains(f.Text, c.Root) || (strings.HasSuffix(c.Root, ".java") && strings.Contains(f.Text, strings.TrimSuffix(c.Root[1:], ".java")+".java"))) {
+				set["root_directory_matches_ignore_pattern"] = true
+			}
+		}
+	}
+	if c.Slash {
+		set["path_with_trailing_separator"] = true
+	}
+	if c.Twice {
+		set["analysed_twice_in_one_process"] = true
+	}
+	if c.Before != nil {
+		set["other_tree_analysed_before_at_same_path"] = true
+	}
+	nMainUnits := 0
+	byName := map[string][]jgen.UnitTruth{}
+	for _, u := range c.Project.Units {
+		if u.Role == "main" {
+			byName[u.Name] = append(byName[u.Name], u)
+		}
+	}
+	short := func(name string) {
+		switch {
+		case contextual[name]:
+			set["contextual_keyword_as_name"] = true
+		case len(name) == 1:
+			set["one_letter_name"] = true
+		}
+		for _, r := range name {
+			switch {
+			case r == '_' || r == '$':
+				set["name_with_underscore_or_dollar"] = true
+			case r > 127:
+				set["name_with_non_ascii_letter"] = true
+			}
+		}
+	}
+	for _, u := range c.Project.Units {
+		if u.Role != "main" {
+			continue
+		}
+		nMainUnits++
+		short(u.Name)
+		if len(byName[u.Name]) > 1 {
+			set["simple_name_in_two_packages"] = true
+		}
+		for _, x := range c.Project.Units {
+			if x.Role == "main" && x.Name != u.Name && strings.HasPrefix(x.Name, u.Name) {
+				set["name_is_prefix_of_another"] = true
+			}
+		}
+		if u.ExtendsRaw != "" && u.ExtendsRaw == u.ExtendsFull && strings.Contains(u.ExtendsRaw, ".") {
+			set["superclass_written_qualified"] = true
+		}
+		if u.ExtendsRaw != u.Name && strings.EqualFold(u.ExtendsRaw, u.Name) {
+			set["superclass_name_differs_from_own_only_in_case"] = true
+		}
+		if !strings.Contains(u.ExtendsRaw, ".") && len(byName[u.ExtendsRaw]) > 1 && strings.HasPrefix(u.ExtendsFull, u.Pkg+".") {
+			set["superclass_of_own_package_has_namesake_elsewhere"] = true
+		}
+		for _, a := range u.Annotations {
+			for _, kv := range a.KV {
+				if strings.HasPrefix(kv[1], "@") || strings.HasPrefix(kv[1], "{@") {
+					set["annotation_as_annotation_argument"] = true
+				}
+			}
+			if a.Name == "Query" || a.Name == "Sep" || a.Name == "Retry" || a.Name == "Names" || a.Name == "Priority" || (a.Name == "Entity" && len(a.KV) == 0) {
+				set["annotation_argument_of_further_kind"] = true
+			}
+		}
+		for _, ft := range u.Features {
+			switch ft {
+			case "class_annotation_among_modifiers", "stray_semicolon", "interface_method_with_modifiers", "interface_method_with_body", "usage_method", "wildcard_project_import":
+				set[ft] = true
+			}
+		}
+		for _, im := range u.Imports {
+			if im.Static {
+				set["static_import"] = true
+			}
+			if im.Wildcard {
+				set["wildcard_import"] = true
+			}
+		}
+		switch n := len(u.Funcs); {
+		case n > 64:
+			set["type_with_more_than_64_functions"] = true
+		case n > 32:
+			set["type_with_more_than_32_functions"] = true
+		case n > 16:
+			set["type_with_more_than_16_functions"] = true
+		}
+		for _, f := range u.Funcs {
+			short(f.Name)
+			for _, p := range f.Params {
+				short(p.Name)
+			}
+		}
+	}
+	switch {
+	case nMainUnits > 32:
+		set["more_than_32_main_files"] = true
+	case nMainUnits > 16:
+		set["more_than_16_main_files"] = true
+	case nMainUnits > 8:
+		set["more_than_8_main_files"] = true
+	}
+	var out []string
+	for l := range set {
+		out = append(out, l)
+	}
+	sort.Strings(out)
+	return out
 }
 
 func init() {
 	pbt.SetProperty("C01")
 	jgen.SetExcluded(pbt.Excluded)
-	pbt.Describe("rapid-generated conventional Java trees (jgen): 1-8 units over 1-3 packages in flat / nested / Maven / multi-module Maven (core/src/main/java, contest-api/src/test/java) / deep layouts, classes (some abstract, generic) and interfaces with fields, constructors, methods (modifier permutations, generic methods, overloads, arrays, generic types, final parameters), class-level annotations of five argument forms, superclasses (project class same package / imported, imported external, unimported, generic), comments and layout noise; class names that are ordinary words which merely contain the letters of a test name (ending in ...test / ...tests in lower case: Contest, Latest, Protests, Shortest; Test in the middle: ...TestHelper, ...Attestation) or other words the tool keys on elsewhere (...Service, ...Util, ...Main, ...Nullable, ...Todo), method names getX / setX / isX / testX / shouldX / mainX, package directories containing the letters test (com/acme/contest, org/demo/latest/api, app/attest); physical lines of any length: a member (annotations and body included) or a whole unit written on one line as generated / minified code is, parameter lists with 20-120 further parameters on one line (the all-arguments constructor of a data class; at most 255 argument slots), method and variable names of 41-300 and occasionally 4100-5200 characters, block comments of 500-6000 (occasionally 60000-70000) bytes in front of the package declaration or of a member on its line, string literals of that length as field initialisers, so that lines exceed 4 KiB and occasionally 64 KiB; one file in eight with CR LF line ends; mixed with test files (*Test.java, *Tests.java, src/test/java/), files ignored through .gitignore (directory pattern and *Suffix.java pattern) and non-Java files. Oracle: the ground truth recorded while printing; both directions (each declared type/function exactly once with its attributes; no other named entry). Judged for JavaIdentifierApp.AnalysisPath, JavaFullApp.AnalysisPath(dir, identifiers) and, for one case in twelve, the files written by the sub-process `coca analysis -p DIR`. Non-trivial = at least 2 units, at least one included and one excluded file, and a type with >= 2 functions; distinct = hash of the whole case.",
+	pbt.Describe("rapid-generated conventional Java trees (jgen): 1-8 units over 1-3 packages in flat / nested / Maven / multi-module Maven (core/src/main/java, contest-api/src/test/java) / deep layouts, classes (some abstract, generic) and interfaces with fields, constructors, methods (modifier permutations, generic methods, overloads, arrays, generic types, final parameters), class-level annotations of five argument forms, superclasses (project class same package / imported, imported external, unimported, generic), comments and layout noise; class names that are ordinary words which merely contain the letters of a test name (ending in ...test / ...tests in lower case: Contest, Latest, Protests, Shortest; Test in the middle: ...TestHelper, ...Attestation) or other words the tool keys on elsewhere (...Service, ...Util, ...Main, ...Nullable, ...Todo), method names getX / setX / isX / testX / shouldX / mainX, package directories containing the letters test (com/acme/contest, org/demo/latest/api, app/attest); physical lines of any length: a member (annotations and body included) or a whole unit written on one line as generated / minified code is, parameter lists with 20-120 further parameters on one line (the all-arguments constructor of a data class; at most 255 argument slots), method and variable names of 41-300 and occasionally 4100-5200 characters, block comments of 500-6000 (occasionally 60000-70000) bytes in front of the package declaration or of a member on its line, string literals of that length as field initialisers, so that lines exceed 4 KiB and occasionally 64 KiB; one file in eight with CR LF line ends; mixed with test files (*Test.java, *Tests.java, src/test/java/), files ignored through .gitignore (directory pattern and *Suffix.java pattern) and non-Java files. Widened by the checklist audit, each shape behind its own draw: identifiers with `_`, `$`, digits and letters outside ASCII (also in class and hence file names, packages com.acme2.v1_0 / org.demo_x); method and variable names that are contextual keywords of newer Java (record, open, to, with, module, uses, provides, permits, sealed, yield, var, ...) and class, method and variable names of one letter; one simple name borne by two classes in two packages, a class named like another one plus a tail (Order1 / Order1Repo), a class whose name differs from that of its imported superclass only in case (ORDER1 extends Order1), a superclass of the own package that has a namesake in another package; further declaration forms: class annotations whose arguments are an empty list `()`, a negative number, a char, a boolean, a string with commas, parentheses, escaped quotes and annotation-like text, a class literal, an arithmetic expression, an empty array, other annotations (`@NamedQueries({@NamedQuery(...), ...})`, `uniqueConstraints = @UniqueConstraint(...)`), arguments over several lines, a qualified annotation name with a pair; an annotation, final or strictfp written among the class modifiers (`public @Deprecated final class`); bounded and several type parameters (`<T extends Comparable<T>>`, `<T, V>`); a superclass written with its qualified name (project class, java.util.ArrayList<String>); throws clauses of constructors; interface methods that are default or static with a body, redundantly abstract (both modifier orders), annotated, throwing; a stray `;` behind a member or the type; types with 13-70 methods; trees of up to 36 units; unused, static and wildcard imports, project classes reached through a wildcard import of their package; method names shared between classes; the wider statement forms of jgen in bodies. Layout: one unit in four (those without a long-line shape) is written again token by token with other separators in turn: tabs, runs of blanks, line ends (a declaration, a parameter list, an annotation over several lines), form feed, CR LF, blanks inside brackets and in front of `(` `;` `.` `,`, block, line and Javadoc comments between any two tokens, some with text that reads like a declaration (`void ghost() { }`, `class Ghost {`, `package other.pkg;`, `}`), text in front of the package declaration and behind the type (blank lines, comments holding a class, eight trailing line ends). Tree: the root .gitignore in other spellings (`**/dir/`, `dir/**`, trailing blanks, `**/*Suffix.java`, the ignored files named one by one by base name / path / rooted path, a later negated pattern that includes one of them again - an ordinary main file -, comment lines that look like patterns `# *.java`, patterns that match nothing here, an escaped `#`, CR LF line ends, no final line end, a .gitignore without any matching pattern); a main file moved under a directory whose name resembles the ignored one (gen_out2, xgen_out, gen_out_, my.gen_out), a build or hidden directory (target, build, node_modules, .hidden), a directory named like a Java file (Sample.java/, vendor/lib.java/, attic/Old.java/) or containing the letters test (javatest); files that are no Java files although their names come close (Foojava, java, notes.java.txt, A.jav, B.java~, C.java.orig, E.javac, D.jsp, files below docs/Sample.java/ and Legacy.java/). The analysed directory is called proj, `my proj`, `проект`, proj.java, like the ignored directory, like an ignored file (XGen.java), src, OrderTest, or lies eight directories deep; one case in six hands it over with a trailing separator. Histories: one case in ten runs both passes twice in the process (both results judged), one in ten first analyses another generated tree at the same path, without reset in between. The sub-process (one case in ten) is spelled `analysis -p ABS`, `--path ABS`, `--path=ABS`, `-p REL`, `-p ./REL/`, `-i -p ABS`, `--identify=true --path ABS/`, or runs inside the directory (`analysis`, `analysis --path=.`); one in three of them runs a second time with `--identify=false` (the stored identifier list) and is judged again. Oracle: the ground truth recorded while printing; both directions (each declared type/function exactly once with its attributes; no other named entry). Judged for JavaIdentifierApp.AnalysisPath, JavaFullApp.AnalysisPath(dir, identifiers) and, for one case in ten, the files written by the sub-process `coca analysis` (source paths expected below the directory as it was named on the command line). Non-trivial = at least 2 units, at least one included and one excluded file, and a type with >= 2 functions; distinct = hash of the whole case.",
 		"identifier pass: FilePath and parameter lists are never recorded for any input, so they are asserted on the full pass only (DESIGN.md section 5)",
 		"interfaces are generated without `extends` (the statement speaks of a superclass)",
 		"paths containing `testData` are not generated: the statement does not say whether they count as ignored",
 		"type texts are compared after removing blanks",
 		"class names stay shorter than a file name may be (255 bytes); only method and variable names get the very long forms",
-		"a main file is never named with the capitalised suffix Test / Tests, the prefix Test, the suffix TestCase or an upper-case TEST / TESTS ending, and never lies under a directory called test or tests: the statement does not define `test file`, and for those names a reader could argue either way; names that only contain the letters (Contest.java, com/acme/latest/) are ordinary main files under every reading")
+		"a main file is never named with the capitalised suffix Test / Tests, the prefix Test, the suffix TestCase or an upper-case TEST / TESTS ending, and never lies under a directory called test or tests: the statement does not define `test file`, and for those names a reader could argue either way; names that only contain the letters (Contest.java, com/acme/latest/, javatest/) are ordinary main files under every reading",
+		"not generated because the statement leaves their expected entries open: nested, local and anonymous classes, initializer blocks, varargs, array brackets behind a parameter name (`String args[]`), enums / records / annotation types, generic constructors, units without a package, nested .gitignore files, the extension .JAVA, a file called just `.java`",
+		"a byte order mark is not generated: javac rejects such a file, so it is no conventional compilation unit",
+		"a simple name that two classes bear is referred to only where Java resolves it without doubt: from the own package without import, or through a single-type import into a package that has no class of that name; never in a tree that also reaches project classes through wildcard imports",
+		"a superclass is written with its qualified name only when its package has at least two segments (next to `import app.*;` the first segment of `app.Base` equals an import text; not examined)",
+		"`dir/**` is written only when the ignored directory lies at the root (git anchors a pattern with an inner slash there); patterns naming a file by path are written from the root",
+		"the separators of the re-written layout are put only between tokens: never inside an operator run (`>>`, `->`, `::`, `<?>`), a literal, a number or between `@` and the annotation name; a re-written text that the shipped parser rejected would be counted as relayout_rejected (0 so far)",
+		"feature switches for findings that may get recorded as known: annotation_as_annotation_argument, same_package_reference_with_namesake_in_other_package, superclass_name_differs_from_own_name_only_in_case")
 	pbt.Register("model", 250, 2500, gen, check)
 }
 
